@@ -18,7 +18,7 @@ import (
 const ruleC12 = "rapid-generated Backoff settings (InitialInterval 0/default, 1ns..1h; Multiplier 0/default, 1, 1.5, 2, 10; Jitter 0/default, 0.1, 0.5, 0.9, -1, 1, 2; MaxInterval unset, below and above the initial interval; MaxElapsedTime unset, small, large; MaxRetries -1, 0, 1..5) x histories of 1..12 attempt outcomes (transport failure | successful connection that then drops, optionally carrying retry fields: valid digit strings 1..1e12 ms, 0, invalid ones - signed, empty, non-digit, decimal point - and several per connection) x virtual delays inside attempts; everything runs on testing/synctest's fake clock, so the instant of every attempt and of every OnRetry is exact. Oracle: a reference controller written from the doc comments of Backoff (base b, consecutive-retry count, series start) is stepped along the observed trace: each OnRetry happens at the instant the previous attempt ended, is followed by the next attempt exactly its wait later, its wait lies within +-Jitter of b (== b for Jitter -1), b grows by Multiplier capped at MaxInterval, a successful connection or an accepted server retry resets count/base/series start, MaxRetries bounds consecutive retries, a retry never ends after MaxElapsedTime and Connect only stops early when the largest possible wait would. Non-trivial: >= 3 consecutive failures and at least one of {reset by a successful connection, accepted server retry, MaxInterval cap reached, stop because of MaxElapsedTime}. Distinct: FNV-64 of the JSON of the case."
 
 var (
-	c12Initials = []int64{0, 0, 1, 7, 1e3, 1e6, 25e6, 1e9, 90e9, 3600e9}
+	c12Initials = []int64{0, 0, 1, 2, 3, 7, 1e3, 1e6, 25e6, 1e9, 90e9, 3600e9}
 	c12Mults    = []float64{0, 1, 1.5, 2, 10, 1.1}
 	c12Jitters  = []float64{0, 0.1, 0.5, 0.9, -1, -1, -1, 1, 2, -0.5}
 	c12Retries  = []string{"1", "7", "250", "1000", "1000000", "1000000000", "1000000000000", "0", "007"}
@@ -43,11 +43,13 @@ func genC12(t *rapid.T) Script {
 	case 3:
 		b.MaxNs = eff * 20
 	}
-	switch stats.Pick(t, 4, "maxelapsed") {
+	switch stats.Pick(t, 5, "maxelapsed") {
 	case 1:
 		b.MaxElapseNs = eff * 2
 	case 2:
 		b.MaxElapseNs = eff * 40
+	case 3:
+		b.MaxElapseNs = 1 // the smallest limit there is
 	}
 	b.MaxRetries = stats.From(t, []int{-1, -3, 0, 0, 0, 1, 2, 3, 5}, "maxretries")
 	if stats.Pct(t, "nthconn") >= 70 {
